@@ -641,6 +641,8 @@ func runC14(cfg Config) {
 	c14IndexUpstreams(cfg, rep, rng)
 	runGCSMissingVsFailed(cfg, rep, m, rng)
 	storeOptsStores(cfg, rep, m, rng)
+	storeOptsServers(cfg, rep, m, rng) // the two server commands' option wiring (cmd/desync/chunkserver.go is a C14 anchor)
+	c14PutHeals(cfg, rep, rng)
 	rep.Write(cfg.Out)
 }
 
